@@ -377,6 +377,9 @@ func (fx *FnCtx) loopEntry(st *State, fr *callFrame, li *loopInfo, b, pred *ssa.
 		st.env[phi] = st.freshVal(phi.Type(), "loop_"+phi.Comment)
 		delete(st.locs, phi)
 	}
+	if os.Getenv("TVDBG3") != "" {
+		fmt.Fprintf(os.Stderr, "LOOP %d all=%v keys=%v\n", li.ordinal, li.all, li.keys)
+	}
 	if li.all {
 		st.havocAllKeepLocks()
 	} else {
